@@ -289,7 +289,7 @@ def run(ctx):
     _CFG = build_config(ctx.scratch, legal)
     n = max(1, len(cases) // (PROCS * 4))
     chunks = [cases[i:i + n] for i in range(0, len(cases), n)]
-    results = common.parallel_map(_work, chunks, procs=PROCS)
+    results = C11.pmap(_work, chunks, PROCS)
     agg = {"classify": 0, "validate": 0, "either": {}, "skip": 0, "skip_na": 0}
     for viol, st in results:
         for key, text, rp in viol:
